@@ -58,6 +58,9 @@ def execute(c):
 
         da = xr.DataArray(pix, dims=("time", "y", "x"), coords={"time": pd.date_range("2000-01-01", periods=pix.shape[0], freq="10D")}, attrs={"nodata": ND})
         zn = xr.DataArray(zones, dims=("y", "x"), attrs={"nodata": ZND})
+        if c["tid"] % 3 == 1:       # the zone raster stored in the other order: pixels and zones meet by dimension NAME
+            zn = zn.transpose("x", "y")
+            c["zorder"] = ["x", "y"]
         # stored layout of the cube: time first / last / middle (the zone raster stays (y, x))
         order = {1: ("y", "x", "time"), 2: ("y", "time", "x")}.get(c["tid"] % 5)
         if order and c["api"] != "accessor_dask_joint":
